@@ -9,6 +9,13 @@ let ifuel = nat 8
 
 exception Stop of string
 
+(* Bag: the value code of T(n, x) -- direct-initialisation, which is what emplace_back(n, x) / resize(k, n, x) of the
+   std:: containers perform: n copies of x; code = len * 2^32 + (sum mod 2^32), as in comp/seq/harness.cpp *)
+let bag_paren (n : string) (x : string) : n =
+  let n = Int64.of_string ("0u" ^ n) and x = Int64.of_string ("0u" ^ x) in
+  let m32 = 0xFFFFFFFFL in
+  n_of_i64 (Int64.logor (Int64.shift_left (Int64.logand n m32) 32) (Int64.logand (Int64.mul n x) m32))
+
 (* the element type's operator== on value codes, as in comp/seq/harness.cpp (dbl_of / Pod) *)
 let dbl_of (c : int64) : float =
   if c = 0L then 0.0 else if c = 1L then (-0.0) else if c = 2L then nan
@@ -55,7 +62,7 @@ let reg_line k sz em cap (elems : n option list) =
   Printf.printf "r%d %d %d %s | %s | %s | %s %s\n" k sz (if em then 1 else 0) cap s s fr bk
 
 let elem_size cont elem =
-  let e = if elem = "int" || elem = "dbl" || elem = "pod" then 8 else 24 in
+  let e = if elem = "int" || elem = "dbl" || elem = "pod" || elem = "bag" then 8 else if elem = "a64" then 64 else 24 in
   if cont = "list" then e + 24 else e
 
 let body lines =
@@ -66,7 +73,7 @@ let body lines =
       | ["type"; c; e] -> c, e, 4
       | ["type"; c; e; n] -> c, e, ios n
       | _ -> "vec", "int", 4 in
-    let tracked = elem = "tv" || elem = "mo" in
+    let tracked = elem = "tv" || elem = "mo" || elem = "a64" in
     let veq = veq_of elem in
     let esz_i = elem_size cont elem in
     let esz = n_of_i64 (Int64.of_int esz_i) in
@@ -83,6 +90,8 @@ let body lines =
             | ["push"; r; x] -> VPush (nat (ios r), nos x)
             | ["pushm"; r; x] -> VPushMove (nat (ios r), nos x)
             | ["emplace"; r; x] -> VEmplace (nat (ios r), nos x)
+            | ["emplace2"; r; n; x] -> VEmplace (nat (ios r), bag_paren n x)
+            | ["resize2"; r; k; n; x] -> VResize (nat (ios r), nat (ios k), bag_paren n x)
             | ["pop"; r] -> VPop (nat (ios r))
             | ["resize"; r; n] -> VResize (nat (ios r), nat (ios n), N0)
             | ["resizev"; r; n; x] -> VResize (nat (ios r), nat (ios n), nos x)
@@ -112,6 +121,8 @@ let body lines =
             | ["push"; r; x] -> SPush (nat (ios r), nos x)
             | ["pushm"; r; x] -> SPushMove (nat (ios r), nos x)
             | ["emplace"; r; x] -> SEmplace (nat (ios r), nos x)
+            | ["emplace2"; r; n; x] -> SEmplace (nat (ios r), bag_paren n x)
+            | ["resize2"; r; k; n; x] -> SResize (nat (ios r), nat (ios k), bag_paren n x)
             | ["pop"; r] -> SPop (nat (ios r))
             | ["resize"; r; n] -> SResize (nat (ios r), nat (ios n), N0)
             | ["resizev"; r; n; x] -> SResize (nat (ios r), nat (ios n), nos x)
@@ -157,6 +168,7 @@ let body lines =
           let o = match words l with
             | ["push"; x] -> KPush (nos x)
             | ["emplace"; x] -> KEmplace (nos x)
+            | ["emplace2"; n; x] -> KEmplace (bag_paren n x)
             | ["pop"] -> KPop
             | ["top"] -> KTop
             | _ -> raise (Stop ("badop " ^ l)) in
@@ -173,6 +185,7 @@ let body lines =
         List.iter (fun l ->
           let o = match words l with
             | ["emplace"; x] -> LEmplaceBack (nos x)
+            | ["emplace2"; n; x] -> LEmplaceBack (bag_paren n x)
             | ["pop"] -> LPopFront
             | ["front"] -> LFront
             | ["empty"] -> LEmpty
